@@ -11,6 +11,7 @@ import (
 	"os"
 	"strconv"
 	"strings"
+	"time"
 
 	"verif/fw"
 	_ "verif/props"
@@ -26,6 +27,7 @@ func main() {
 	skip := flag.String("skip", "", "")
 	out := flag.String("out", "", "")
 	verbose := flag.Bool("verbose", false, "")
+	cpu := flag.Int("cpulimit", 0, "CPU seconds one case may use (worker)")
 	replay := flag.String("replay", "", "replay file")
 	list := flag.Bool("list", false, "list properties")
 	flag.Parse()
@@ -45,7 +47,7 @@ func main() {
 			v, _ := strconv.Atoi(s)
 			sk[v] = true
 		}
-		os.Exit(fw.RunWorker(fw.WorkerArgs{Prop: *prop, Tier: *tier, Seed: *seed, From: *from, To: *to, Skip: sk, Out: *out, Verbose: *verbose}))
+		os.Exit(fw.RunWorker(fw.WorkerArgs{Prop: *prop, Tier: *tier, Seed: *seed, From: *from, To: *to, Skip: sk, Out: *out, Verbose: *verbose, CPULimit: time.Duration(*cpu) * time.Second}))
 	}
 	if *tier != "quick" && *tier != "thorough" {
 		fmt.Fprintln(os.Stderr, "tier must be quick or thorough")
